@@ -20,6 +20,7 @@
 //   EntityType::from_repr (strum derive), the typed address wrappers (macro-generated).
 // @subst (4, all notational): `.map(Self::String)` and `.map_err(Variant)` x2 eta-expanded (Verus rejects constructor
 //   functions as values); `u64::{to,from}_be_bytes` routed through env fns with the std contract.
+#![feature(pattern)]
 use vstd::prelude::*;
 verus! {
 /*@include shims/rt.rs @*/
@@ -321,6 +322,60 @@ pub mod env {
     pub assume_specification<'a> [<String as PartialEq<&'a str>>::ne] (a: &String, b: &&str) -> (r: bool)
         ensures r == (a@ != (*b)@);
 
+    // ---- std / hex contracts used by `impl FromStr for NonFungibleLocalId` -----------------------------------
+    /// `str::starts_with` / `ends_with` are generic in the pattern; only the `char` pattern is characterised
+    pub uninterp spec fn pat_prefix<P>(p: P, s: Seq<char>) -> bool;
+    pub uninterp spec fn pat_suffix<P>(p: P, s: Seq<char>) -> bool;
+    pub assume_specification<P: core::str::pattern::Pattern> [str::starts_with] (s: &str, pat: P) -> (r: bool)
+        ensures r == pat_prefix(pat, s@);
+    pub assume_specification<P: core::str::pattern::Pattern> [str::ends_with] (s: &str, pat: P) -> (r: bool)
+        where for<'a> P::Searcher<'a>: core::str::pattern::ReverseSearcher<'a>
+        ensures r == pat_suffix(pat, s@);
+    pub broadcast axiom fn ax_char_prefix(c: char, s: Seq<char>)
+        ensures #[trigger] pat_prefix::<char>(c, s) == (s.len() > 0 && s[0] == c);
+    pub broadcast axiom fn ax_char_suffix(c: char, s: Seq<char>)
+        ensures #[trigger] pat_suffix::<char>(c, s) == (s.len() > 0 && s.last() == c);
+    /// a str's byte length is a usize (vstd specifies `str::len` as the byte length clipped to usize)
+    pub broadcast axiom fn ax_str_len_fits(s: &str)
+        ensures #[trigger] vstd::string::StringSliceAdditionalSpecFns::spec_bytes(s).len() <= usize::MAX;
+    /// `str::parse::<F>()` = `F::from_str`: nothing is assumed about the result
+    #[verifier::external_trait_specification]
+    pub trait ExFromStr: Sized { type ExternalTraitSpecificationFor: core::str::FromStr; type Err; fn from_str(s: &str) -> Result<Self, Self::Err>; }
+    #[verifier::external_type_specification]
+    #[verifier::external_body]
+    pub struct ExParseIntError(core::num::ParseIntError);
+    pub assume_specification<F: core::str::FromStr> [str::parse] (s: &str) -> (r: Result<F, F::Err>);
+    /// `String::len` is the byte length of the UTF-8 form
+    pub assume_specification [String::len] (s: &String) -> (r: usize)
+        ensures r == vstd::utf8::encode_utf8(s@).len();
+    /// `Vec<u8>::try_into::<[u8; 32]>()` = std `impl TryFrom<Vec<T>> for [T; N]`: Ok exactly when the length is N, else the
+    /// vector is handed back. (vstd specifies the blanket `TryInto::try_into` through the trait-level `TryFrom::try_from`,
+    /// which cannot be tied to that std impl, hence an extension method with the std contract.)
+    pub trait VecIntoArray32 { fn try_into_array32(self) -> Result<[u8; 32], Vec<u8>>; }
+    impl VecIntoArray32 for Vec<u8> {
+        #[verifier::external_body]
+        fn try_into_array32(self) -> (r: Result<[u8; 32], Vec<u8>>)
+            ensures r is Ok <==> self@.len() == 32, r matches Ok(a) ==> a@ == self@, r matches Err(v) ==> v == self
+        { self.try_into() }
+    }
+    /// third-party crate `hex`: `decode` accepts an even number of ASCII hex digits and returns one byte per pair
+    pub mod hex {
+        use vstd::prelude::*;
+        pub struct FromHexError { pub code: u8 }
+        pub trait HexSrc { spec fn src_bytes(&self) -> Seq<u8>; }
+        impl<'a> HexSrc for &'a str { open spec fn src_bytes(&self) -> Seq<u8> { vstd::utf8::encode_utf8((*self)@) } }
+        impl<'a> HexSrc for &'a String { open spec fn src_bytes(&self) -> Seq<u8> { vstd::utf8::encode_utf8((*self)@) } }
+        #[verifier::external_body]
+        pub fn decode<T: HexSrc>(data: T) -> (r: Result<Vec<u8>, FromHexError>)
+            ensures r matches Ok(v) ==> data.src_bytes().len() % 2 == 0 && v@.len() == data.src_bytes().len() / 2
+        { unimplemented!() }
+    }
+    /// `chars.into_iter().filter(|c| *c != '-').collect::<String>()` (iterator adapters are not supported by Verus)
+    #[verifier::external_body]
+    pub fn collect_without_hyphens(chars: Vec<char>) -> (r: String)
+        ensures r@ == chars@.filter(|c: char| c != '-')
+    { unimplemented!() }
+
     /// std: `char::is_ascii_digit` is `matches!(*self, '0'..='9')`
     pub assume_specification [char::is_ascii_digit] (c: &char) -> (r: bool)
         ensures r == ('0' <= *c && *c <= '9');
@@ -332,7 +387,7 @@ pub mod unit {
     use vstd::utf8::*;
     use super::rt::*;
     use super::env::*;
-    broadcast use {ax_string_as_str, ax_vec_u5_as_slice};
+    broadcast use {ax_string_as_str, ax_vec_u5_as_slice, ax_char_prefix, ax_char_suffix, ax_str_len_fits, vstd::std_specs::range::group_range_axioms};
 
     // (declared first: placed after the other items, this Verus build mis-evaluates the binary discriminant literals)
     /*@item radix-common/src/types/entity_type.rs :: enum EntityType
@@ -1219,6 +1274,91 @@ pub mod unit {
             accepts(h, text) == Some((e, data)),
             hrp_of(other, e) != hrp_of(h, e) ==> accepts(other, text) is None,
     {
+    }
+
+    // =============================================================================================
+    // TEXT PARSER: impl FromStr for NonFungibleLocalId -- panic-freedom for EVERY &str, accepted ==> valid id
+    // =============================================================================================
+    /*@item radix-common/src/data/scrypto/model/non_fungible_local_id.rs :: enum ParseNonFungibleLocalIdError
+    @derive
+    @*/
+    /// the UTF-8 image of a prefix ends on a character boundary of the whole image (so `&s[a..b]` cannot panic there)
+    pub proof fn lemma_boundary_concat(a: Seq<char>, b: Seq<char>)
+        ensures
+            encode_utf8(a + b) == encode_utf8(a) + encode_utf8(b),
+            valid_utf8(encode_utf8(a + b)),
+            is_char_boundary(encode_utf8(a + b), encode_utf8(a).len() as int),
+    {
+        encode_utf8_concat(a, b);
+        encode_utf8_valid_utf8(a + b);
+        let bytes = encode_utf8(a + b);
+        let k = encode_utf8(a).len() as int;
+        is_char_boundary_start_end_of_seq(bytes);
+        if b.len() > 0 {
+            let c = b[0];
+            lemma_scalar(c);
+            let h = encode_scalar(c as u32);
+            assert(encode_utf8(b) == h + encode_utf8(b.drop_first()));
+            assert(bytes[k] == h[0]);
+            let x = h[0];
+            assert(x < 128 || x >= 0xC0);
+            assert(!is_continuation_byte(x)) by {
+                assert(x < 128 || x >= 0xC0 ==> (x & 0xC0) != 0x80) by (bit_vector);
+            }
+            is_char_boundary_iff_not_is_continuation_byte(bytes, k);
+        } else {
+            assert(encode_utf8(b).len() == 0);
+        }
+    }
+    /// a text whose first and last characters are ASCII and that has at least two characters can be sliced
+    /// at byte offsets 1 and len - 1, and the slice is the text without those two characters
+    pub proof fn lemma_inner_slice(s: Seq<char>)
+        requires s.len() >= 2, (s[0] as u32) < 128, (s.last() as u32) < 128
+        ensures
+            encode_utf8(s).len() >= 2,
+            is_char_boundary(encode_utf8(s), 1),
+            is_char_boundary(encode_utf8(s), encode_utf8(s).len() - 1),
+            encode_utf8(s).subrange(1, encode_utf8(s).len() - 1) == encode_utf8(s.subrange(1, s.len() - 1)),
+    {
+        let n = s.len() as int;
+        let first = seq![s[0]]; let mid = s.subrange(1, n - 1); let last = seq![s.last()];
+        assert(s =~= first + (mid + last));
+        assert(s =~= (first + mid) + last);
+        lemma_scalar(s[0]); lemma_scalar(s.last());
+        assert(encode_utf8(first) =~= seq![s[0] as u8]) by { assert(first.drop_first() =~= Seq::<char>::empty()); assert(encode_utf8(first.drop_first()).len() == 0); }
+        assert(encode_utf8(last) =~= seq![s.last() as u8]) by { assert(last.drop_first() =~= Seq::<char>::empty()); assert(encode_utf8(last.drop_first()).len() == 0); }
+        lemma_boundary_concat(first, mid + last);
+        lemma_boundary_concat(first + mid, last);
+        lemma_boundary_concat(first, mid);
+        lemma_boundary_concat(mid, last);
+        let b = encode_utf8(s);
+        assert(b == encode_utf8(first) + encode_utf8(mid) + encode_utf8(last));
+        assert(b.subrange(1, b.len() - 1) =~= encode_utf8(mid));
+    }
+
+    impl core::str::FromStr for NonFungibleLocalId {
+        type Err = ParseNonFungibleLocalIdError;
+        /*@fn radix-common/src/data/scrypto/model/non_fungible_local_id.rs :: impl FromStr for NonFungibleLocalId :: fn from_str
+        @subst <<.map_err(ParseNonFungibleLocalIdError::ContentValidationError)>> => <<.map_err(|e: ContentValidationError| -> (r: ParseNonFungibleLocalIdError) ensures r == ParseNonFungibleLocalIdError::ContentValidationError(e) { ParseNonFungibleLocalIdError::ContentValidationError(e) })>> x2 why: Verus rejects a tuple-variant constructor used as a function value; eta-expanded to the closure it denotes
+        @subst <<chars.into_iter().filter(|c| *c != '-').collect()>> => <<collect_without_hyphens(chars)>> why: Verus has no iterator adapters (filter/collect); env::collect_without_hyphens is the same computation (keep every character that is not '-') as one call
+        @subst <<.try_into()>> => <<.try_into_array32()>> why: vstd's specification of the blanket TryInto::try_into cannot be connected to std's `impl TryFrom<Vec<T>> for [T; N]`; env::VecIntoArray32::try_into_array32 is that conversion with its documented contract (Ok <==> len == 32), so the following `.unwrap()` stays a real proof obligation
+        @closure 1 := |_e: core::num::ParseIntError| -> (r: ParseNonFungibleLocalIdError) ensures r == ParseNonFungibleLocalIdError::InvalidInteger
+        @closure 2 := |_e: hex::FromHexError| -> (r: ParseNonFungibleLocalIdError) ensures r == ParseNonFungibleLocalIdError::InvalidBytes
+        @closure 4 := |_e: hex::FromHexError| -> (r: ParseNonFungibleLocalIdError) ensures r == ParseNonFungibleLocalIdError::InvalidRUID
+        @before <<hex::decode(&hyphen_stripped)>> #1
+            proof { assert(hex::HexSrc::src_bytes(&&hyphen_stripped).len() == 64); }
+        @sig
+            ensures
+                ret matches Ok(id) ==> wf(id),
+        @entry
+            proof {
+                if s@.len() >= 2 && (s@[0] as u32) < 128 && (s@.last() as u32) < 128 { lemma_inner_slice(s@); }
+                assert(s.spec_bytes() == encode_utf8(s@));
+                // a one-character text with an ASCII character is one byte long (`s.len() > 1` then means two characters)
+                if s@.len() == 1 { lemma_scalar(s@[0]); assert(s@.drop_first() =~= Seq::<char>::empty()); assert(encode_utf8(s@.drop_first()).len() == 0); }
+                assert(('<' as u32) < 128 && ('>' as u32) < 128 && ('#' as u32) < 128 && ('[' as u32) < 128 && (']' as u32) < 128 && ('{' as u32) < 128 && ('}' as u32) < 128);
+            }
+        @*/
     }
 }
 } // verus!
